@@ -181,3 +181,33 @@ def parse_int(s, base=10):
     r = _reg()
     t = r['decs'][_NUM_INDEX[body]]
     return mk_int(t if sign == 1 else -t)
+
+
+def str_items(s):
+    """items (ints / terms) of a str made of ASCII characters and utf8 placeholders, or None"""
+    out = []
+    for c in s:
+        if is_placeholder(c):
+            r = _reg()
+            idx = ord(c) - PUA_BASE
+            if idx >= len(r['terms']) or r['terms'][idx][0] != 'utf8':
+                return None
+            out.append(r['terms'][idx][1])
+        elif c == HEX_MARK or c in _NUM_INDEX or ord(c) >= 0x80:
+            return None
+        else:
+            out.append(ord(c))
+    return out
+
+
+def str_eq(a, b):
+    """equality of two strs either of which may contain utf8 placeholders: bool | SymBool"""
+    if not has_placeholder(a) and not has_placeholder(b):
+        return a == b
+    ia, ib = str_items(a), str_items(b)
+    if ia is None or ib is None:
+        eng().fail(Unsupported, 'comparison of strings with non-utf8 placeholders')
+    if len(ia) != len(ib):
+        return False
+    from .values import bytes_eq, mk_bytes
+    return bytes_eq(mk_bytes(ia), mk_bytes(ib))
